@@ -22,7 +22,8 @@ def run(ctx):
     common = dict(SGDs=[], CheckEnabled=True, MaxTrunc=0)
 
     def mc_extra(scen):
-        return dict(common, R0=0, Rets=[0, 2, 3, 5], MaxBatch=2, MaxOps=4 if quick else 5, MaxWrites=2 if quick else 3)
+        return dict(common, R0=0, Rets=[0, 2, 3, 5], MaxBatch=2, MaxOps=4 if quick else 5, MaxWrites=2 if quick else 3,
+                    MaxTrunc=1, TruncPos=[25, 29])
 
     def gen_variants(scen):
         if quick:
@@ -33,20 +34,27 @@ def run(ctx):
                 ('prune', dict(common, R0=0, Rets=[3], MaxBatch=1, MaxOps=5, MaxWrites=1, PointPos=[20, 28, 37]), 4000),
                 # requests of two points under a finite retention: dropped counts
                 ('batch', dict(common, R0=2, Rets=[3, 5], MaxBatch=2, MaxOps=2, MaxWrites=2), 4000),
+                # truncated groups (TruncateShardGroups through the client): expiry is decided on EndTime, so with
+                # TruncatedAt + retention < now <= EndTime + retention the group and its shard must survive the pass
+                # (group of 28 truncated at 29 with retention 2, group of 25/24 truncated at 25 with retention 3, ...)
+                ('truncated', dict(common, R0=0, Rets=[2, 3, 5], MaxBatch=1, MaxOps=4, MaxWrites=2, MaxTrunc=1,
+                                   TruncPos=[21, 25, 29], PointPos=[20, 25, 28, 32]), 8000),
             ]
         return [
             ('layout', dict(common, R0=0, Rets=[0, 2, 3, 5], MaxBatch=1, MaxOps=4, MaxWrites=3), None),
             ('prune', dict(common, R0=0, Rets=[3, 5], MaxBatch=1, MaxOps=6, MaxWrites=2, PointPos=[20, 28, 37]), 40000),
             ('batch', dict(common, R0=2, Rets=[0, 3, 5], MaxBatch=2, MaxOps=3, MaxWrites=2), 40000),
             ('deep', dict(common, R0=0, Rets=[0, 2, 5], MaxBatch=1, MaxOps=5, MaxWrites=3, PointPos=[13, 25, 28, 37]), 40000),
+            ('truncated', dict(common, R0=0, Rets=[0, 2, 3, 5], MaxBatch=1, MaxOps=5, MaxWrites=2, MaxTrunc=1,
+                               TruncPos=[21, 25, 29, 33], PointPos=[20, 25, 28, 32, 37]), 60000),
         ]
 
     def actions(scen):
-        return ['Write', 'Reload', 'SetRet', 'RetentionCheck', 'AgeDeleted']
+        return ['Write', 'Reload', 'SetRet', 'RetentionCheck', 'AgeDeleted', 'Truncate']
 
     _c18.run_family(ctx, ['Retention'], mc_extra, gen_variants, actions, 1 if quick else 3)
     ctx.rule = ('every TLC history of length MaxOps over write(1..2 points at 6 positions between now-7 ticks and now)/'
-                'UpdateRetentionPolicy(duration 0,2,3,5 ticks)/DeletionCheck/reload/ageing of deletion stamps, tick = 1h, 24h or 7d '
+                'UpdateRetentionPolicy(duration 0,2,3,5 ticks)/DeletionCheck/reload/ageing of deletion stamps/TruncateShardGroups, tick = 1h, 24h or 7d '
                 '(the ones in which the wall clock is >= 5 min from a tick boundary; rotated by seed in quick, all in thorough), '
                 'sampled by seed when above budget; compared: dropped/written per point, PartialWriteError.Dropped, groups deleted '
                 'by the pass, DeleteShard calls, shards left in the store, bounds/liveness of all groups. '
